@@ -165,7 +165,9 @@ pub fn check_hms_grid(h: u32, mi: u32, s: u32, us: u32) -> Result<bool, String> 
                 Error::InvalidMinute => mb,
                 Error::InvalidSecond => sb,
                 Error::InvalidFraction => ub,
-                _ => false,
+                // the statement fixes no error kinds: only a kind whose documented meaning names a
+                // field that is fine is a contradiction; any other kind is "an error"
+                _ => true,
             };
             if !ok {
                 return Err(format!("try_from_hms({h},{mi},{s},{us}) = Err({e:?}) does not match a bad field"));
@@ -177,16 +179,16 @@ pub fn check_hms_grid(h: u32, mi: u32, s: u32, us: u32) -> Result<bool, String> 
 
 pub fn check_time_oob(t: i64) -> Result<(), String> {
     match guarded(|| Time::try_from_usecs(t)) {
-        Ok(Err(Error::TimeOutOfRange)) => Ok(()),
-        Ok(o) => Err(format!("Time::try_from_usecs({t}) = {:?}, expected Err(TimeOutOfRange)", o.map(|x| x.usecs()))),
+        Ok(Err(_)) => Ok(()),
+        Ok(o) => Err(format!("Time::try_from_usecs({t}) = {:?}, expected an error (not a time of day)", o.map(|x| x.usecs()))),
         Err(p) => Err(p),
     }
 }
 
 pub fn check_ts_oob(t: i64) -> Result<(), String> {
     match guarded(|| Timestamp::try_from_usecs(t)) {
-        Ok(Err(Error::DateOutOfRange)) => Ok(()),
-        Ok(o) => Err(format!("Timestamp::try_from_usecs({t}) = {:?}, expected Err(DateOutOfRange)", o.map(|x| x.usecs()))),
+        Ok(Err(_)) => Ok(()),
+        Ok(o) => Err(format!("Timestamp::try_from_usecs({t}) = {:?}, expected an error (outside the timestamp range)", o.map(|x| x.usecs()))),
         Err(p) => Err(p),
     }
 }
